@@ -28,7 +28,7 @@
 
    Transport: a netceptor stream is a reliable ordered byte pipe until it breaks (property C03);
    delivery is therefore modelled as atomic with the remote read. *)
-From Receptor Require Export Model.Results.
+From Receptor Require Export Model.Results Model.Writer.
 Open Scope N_scope.
 
 Inductive mev :=
@@ -193,6 +193,6 @@ Definition header_check (c : header_case) : bool :=
   end.
 
 (* one case file for the property: reader cases, mirror cases, header cases *)
-Inductive c05_case := CR (c : results_case) | CM (c : mirror_case) | CH (c : header_case).
+Inductive c05_case := CR (c : results_case) | CM (c : mirror_case) | CH (c : header_case) | CW (cs : list writer_case).
 Definition c05_check (c : c05_case) : bool :=
-  match c with CR r => results_check r | CM m => mirror_check m | CH h => header_check h end.
+  match c with CR r => results_check r | CM m => mirror_check m | CH h => header_check h | CW ws => forallb writer_check ws end.
